@@ -424,6 +424,27 @@ func propC05Refs(c *Ctx) {
 		if !isRefVisit || !ok {
 			continue
 		}
+		// a helper that hands the reference on to the check (resolve(ig, ref) → check(ref)):
+		// the inner visit is the one that is judged
+		if h := regionCallee(call); h != nil && isRepoFunc(h) {
+			inner := false
+			for _, e2 := range wk.events {
+				if e2.In != h || e2.Call == e.Call {
+					continue
+				}
+				for i, p := range e2.Paths {
+					if p == "" {
+						continue
+					}
+					if pt, ok := e2.Call.Common().Args[i].Type().Underlying().(*types.Pointer); ok && repoNamedIs(pt.Elem(), "dig", "Ref") {
+						inner = true
+					}
+				}
+			}
+			if inner {
+				continue
+			}
+		}
 		n++
 		okv, errv := extractOf(call, 0), extractOf(call, 1)
 		good := false
@@ -482,6 +503,11 @@ func propC05Refs(c *Ctx) {
 				}
 				if !ext {
 					detail = "the list stored into Integration.Dependencies is not the integration's current list extended by the new reference (a stale copy drops the dependencies registered before)"
+					continue
+				}
+				// … and it is stored into the configuration, not into a local copy of the integration
+				if _, stBase := fieldOf(cd.st.Addr); stBase != nil && isLocalAlloc(accessPath(stBase).Root) {
+					detail = "the dependency is appended to a local copy of the integration (a range-by-value loop variable): the configuration never sees it"
 					continue
 				}
 				good = true
